@@ -5,7 +5,7 @@ import sym
 
 CONFIGS_QUICK = ["F_all", "F_def"]  # every configuration whose cfg-gated code the property depends on
 CONFIGS_THOROUGH = ["F_all", "F_def"]
-TECHNIQUE = 'static analysis: save/disable/restore on every exit (all paths of the three read_to_end! instantiations), loop decision table with loop-carried depth, ordering/dominance of position reads, consumed=advanced path summaries of the source helpers (running counters from back edges)'
+TECHNIQUE = 'static analysis: save/disable/restore on every exit (all paths of the three read_to_end! instantiations), loop decision table with loop-carried depth, ordering/dominance of position reads, consumed=advanced path summaries of the source helpers (running counters from back edges), refill-retry discipline of the source helpers (C18 R1) re-evaluated'
 EXPLANATION = (
     "For every instantiation of the read_to_end! macro (slice, buffered, async; found through macro provenance): the "
     "trim_text_start flag read at entry is disabled and written back on every path to a return (error, Eof and normal "
@@ -250,4 +250,16 @@ def r6_positions(ctx):
     consume.check(ctx, "R6")
 
 
-RULES = [("R1", r1_restore), ("R2", r2_depth), ("R3", r3_read_text), ("R5", r5_buffer_position), ("R6", r6_positions)]
+def r7_refills_are_retried(ctx):
+    """Skipping an element reads through the same source helpers as everything else (peek_one, read_text, read_with,
+    read_bang_element, skip_whitespace).  A buffered source may answer a refill with ErrorKind::Interrupted at any
+    time; the helper must ask again, or read_to_end gives up in the middle of the element it was asked to consume
+    (C18 R1 re-evaluated)."""
+    import c18
+    n0 = len(ctx.obs)
+    c18.r1_refill(ctx)
+    for o in ctx.obs[n0:]:
+        o["rule"] = "R7"
+
+
+RULES = [("R1", r1_restore), ("R2", r2_depth), ("R3", r3_read_text), ("R5", r5_buffer_position), ("R6", r6_positions), ("R7", r7_refills_are_retried)]
